@@ -78,7 +78,11 @@ func runC09(p *core.Prog, r *core.Report) {
 	core.CheckCallers(p, r2, fns, []core.CallerRule{
 		{Sink: mbDB + "put", MinSites: 3, Allowed: map[string]string{mbDB + "PutCounted": "single put", mbDB + "PutBatch": "batch put (rebuild)", mbDB + "put": "parent header of the object being put"}},
 		{Sink: mb + "PutMetadataForObject", MinSites: 1, Allowed: map[string]string{mbDB + "put": "the ruled put path (R1)"}},
-		{Sink: mbDB + "PutBatch", MinSites: 1, Allowed: map[string]string{"(*" + mb + "resyncHandler).flush": "metabase rebuild"}},
+		{Sink: mbDB + "PutBatch", MinSites: 1, Allowed: map[string]string{
+			"(*" + mb + "resyncHandler).flush":     "metabase rebuild",
+			"(*pkg/services/meta.Meta).PutObjects": "the metadata service's own header database (a separate DB instance, not a shard's metabase; seen in the whole-program tier only)",
+			"pkg/services/meta.batchWriter":        "same: the metadata service's batching writer",
+		}},
 	})
 	// the rebuild handler reaches the DB only through PutBatch / logging
 	for _, name := range []string{"(*" + mb + "resyncHandler).handle", "(*" + mb + "resyncHandler).flush"} {
